@@ -462,6 +462,25 @@ theorem bct_parity_matrix (n : Nat) (c : Code) (hc : parityCode n = .ok c) (h R 
     Sem.den .qubit R [wq] [xq] = Spec.melF h out s :=
   bct_parity_matrix' n c hc h R hwf hR s out wq xq hs ho hw hx
 
+/-- the same for `interleaved_code(2h)`, every `h` -/
+theorem bct_interleaved_matrix (hh : Nat) (c : Code) (hc : interleavedCode (2 * hh) = .ok c) (h R : Model.Op)
+    (hwf : ∀ tc ∈ h, ∀ f ∈ tc.1, f.2 ≤ 1 ∧ f.1 < 2 * hh) (hR : binaryCodeTransform 0 h c = .ok R)
+    (s out wq xq : Nat) (hs : s < 2 ^ (2 * hh)) (ho : out < 2 ^ (2 * hh))
+    (hw : bitsOf wq = encFn c (occList s (2 * hh))) (hx : bitsOf xq = encFn c (occList out (2 * hh))) :
+    Sem.den .qubit R [wq] [xq] = Spec.melF h out s :=
+  bct_interleaved_matrix' hh c hc h R hwf hR s out wq xq hs ho hw hx
+
+/-- `checksum_code(n, odd)`, every `n`: for a Hamiltonian whose terms map the Fock state `s` of the parity sector
+into the parity sector (or to 0), `⟨e(out)| R |e(s)⟩ = ⟨out| h |s⟩` for all `out` of the sector. -/
+theorem bct_checksum_matrix (n : Nat) (odd : Bool) (c : Code) (hc : checksumCode n odd = .ok c) (h R : Model.Op)
+    (hwf : ∀ tc ∈ h, ∀ f ∈ tc.1, f.2 ≤ 1 ∧ f.1 < n) (hR : binaryCodeTransform 0 h c = .ok R)
+    (s out wq xq : Nat) (hs : s < 2 ^ n) (ho : out < 2 ^ n)
+    (hps : ((occList s n).sum % 2 == 1) = odd) (hpo : ((occList out n).sum % 2 == 1) = odd)
+    (hpres : ∀ tc ∈ h, ∀ k s', Spec.actFTerm tc.1 s = some (k, s') → ((occList s' n).sum % 2 == 1) = odd)
+    (hw : bitsOf wq = encFn c (occList s n)) (hx : bitsOf xq = encFn c (occList out n)) :
+    Sem.den .qubit R [wq] [xq] = Spec.melF h out s :=
+  bct_checksum_matrix' n odd c hc h R hwf hR s out wq xq hs ho hps hpo hpres hw hx
+
 /-! ## the literal segment codes (tables re-extracted from the source on every run) -/
 
 instance (c : Code) (v : List Nat) : Decidable (ValidOn c v) := by unfold ValidOn; infer_instance
